@@ -166,7 +166,9 @@ def oracle_c04(out):
 
 def make_case(rng, quick):
     g = nsgen.gen_graph(rng, n_ns=rng.randint(1, 3), n_nodes=rng.randint(1, 7 if quick else 10), value_gen=value_gen)
-    ds = nsgen.serialise(g, rng, value_xml=value_xml)
+    # one case in five: companion specifications parsed on their own - everything of the base namespace they name (types, parents, reference types) is undefined
+    g.with_base = rng.random() >= 0.2
+    ds = nsgen.serialise(g, rng, value_xml=value_xml, with_base=g.with_base)
     return g, ds
 
 def originals_of(g, ds):
@@ -336,7 +338,7 @@ def run(ctx, prop):
             if prop in ("C02", "C03") and outs[0][1][0] == "ok":
                 base = denotation(outs[0][1])
                 for v in range(2):
-                    ds2 = nsgen.serialise(g, rng, value_xml=value_xml)
+                    ds2 = nsgen.serialise(g, rng, value_xml=value_xml, with_base=g.with_base)
                     files2, _ = render_set(ds2, rng)
                     caller = rng.choice([None, [UA] + g.uris[::-1]])
                     out2, _ = parsecmp.impl_parse(work, files2, caller)
